@@ -276,6 +276,12 @@ class Resolver:
                     if et:
                         out.setdefault(tgt, set()).update(et)
                         continue
+            if owner.cls is not None and isinstance(val, ast.Attribute) and isinstance(val.value, ast.Name) and val.value.id == "self":
+                # x = self.attr  (local alias of an attribute): the attribute's types (and its task, see below)
+                at = self.attr_type(owner.cls.qualname, val.attr)
+                if at:
+                    out.setdefault(tgt, set()).update(at)
+                    continue
             if isinstance(val, ast.Call):
                 fn = dotted(val.func)
                 if fn:
